@@ -1,5 +1,9 @@
 import CharsetProof.Props.C11
+import CharsetProof.Props.C11b
 open Charset
+#print axioms Nested.C11_nested_history
+#print axioms Nested.callSolo_correct
+#print axioms Nested.solo_finishes
 #print axioms memoCall_correct
 #print axioms memoRun_correct
 #print axioms C11_history_independent
